@@ -825,7 +825,14 @@ fn main() {
     let rule = "one case = one image (size, pixels, background, crop) drawn twice on one handler and once on a fresh one; non-trivial = more than one colour register or a repeat count above 3; distinct by (visible pixels, size, background)";
     if let Some(r) = &cfg.replay {
         if let Some(case) = Case::from_json(&r["failure"]["input"]) {
-            run_case(&mut out, &mut Shared::new(), &case, true);
+            // failures of the cache need a history: an image of the same shape with other pixels first
+            let mut shared = Shared::new();
+            let mut sibling = case.clone();
+            for p in sibling.px.iter_mut() {
+                *p = [255 - p[0], 255 - p[1], p[2] ^ 0x55, 255];
+            }
+            let _ = draw(shared.handler(case.bg), &sibling.image());
+            run_case(&mut out, &mut shared, &case, true);
         }
         out.finish(rule);
         return;
